@@ -275,7 +275,9 @@ struct Reg
       using G = typename decltype(tag)::type;
       const std::string n = type_name<G>();
       vf::registry().push_back({"c05.exp<" + n + ">", 4 * G::Dof + 12, &c05_exp<G>, 1.0, "non-commutative type with non-zero rotation part", {}});
-      vf::registry().push_back({"c05.rminus<" + n + ">", 4 * G::Dof + 12, &c05_rminus<G>, G::Dof > 6 ? 0.004 : (G::Dof > 3 ? 0.03 : 0.08),
+      // the finite-difference reference costs O(Dof^2) Newton logs: base groups and small Bundles only
+      if constexpr (G::Dof <= 6)
+        vf::registry().push_back({"c05.rminus<" + n + ">", 4 * G::Dof + 12, &c05_rminus<G>, G::Dof > 3 ? 0.02 : 0.08,
                                 "non-commutative type with non-zero rotation part", {}});
     });
 #if VF_UNIT == 0
